@@ -267,6 +267,14 @@ def case(rec, pvl, dialect, key):
         # if it writes the label anyway the scanner's name rule sees it
         bad = rng.choice(("A_NAME_THAT_IS_LONGER_THAN_30_CHARS", "a-b", "1a", "a_",
                           "a.b", "ns:", "^", "a b", "x:y:z", "A2345678901234567890123456789_31"))
+        if rng.random() < 0.4:
+            # names around the 30-character limit, plain, as a ^pointer and
+            # with a namespace: 29 and 30 characters are legal, 31 is not
+            total = rng.choice((29, 30, 31, 31))
+            prefix = rng.choice(("", "^", "NS:", "^NS:"))
+            stem = "DESCRIPTION_OF_THE_IMAGE_TABLE_AND_MORE"
+            bad = prefix + stem[:total - len(prefix)]
+            rec.count(f"odl_boundary_names[{total}]")
         gm.module.append(bad, 1)
         rec.count("odl_bad_name_cases")
     before = clone(gm.module)
